@@ -72,7 +72,9 @@ def gen_cfg(r, i):
     cfg = {"seed": int(r.integers(1, 100000)), "dims": int(r.choice([1, 2])), "n_samples": int(r.choice([8, 12])), "kernel_steps": 2,
            "every": int(r.choice([1, 1, 2, 3, 4])), "like_width": float(r.choice([0.3, 0.6])),
            "route": str(r.choice(["path", "auto", "auto"])), "pre_existing": bool(i % 4 == 3),
-           "auto_pre": str(r.choice(["none", "fit", "importance"]))}
+           "auto_pre": str(r.choice(["none", "fit", "importance"])),
+           # how the interruption arrives: an ordinary exception or a KeyboardInterrupt (Ctrl-C / SIGINT)
+           "fault_kind": "interrupt" if i % 3 == 1 else "exception"}
     m = i % 5
     if m == 1:
         cfg["n_final_samples"] = int(cfg["n_samples"] // 2)       # the forced final payload holds a smaller population
@@ -88,6 +90,7 @@ def gen_cfg(r, i):
 def one_run(cfg, path, fault_at=None, fault_prior_at=None, log=None):
     target = smcrun.Target(cfg["dims"], width=cfg["like_width"])
     target.fault_at, target.fault_prior_at = fault_at, fault_prior_at
+    target.fault_exc = smcrun.FaultInterrupt if cfg.get("fault_kind") == "interrupt" else smcrun.Fault
     a = al.make_aspire(target, dims=cfg["dims"], flow_seed=cfg["seed"] % 1000)
     pre = cfg.get("auto_pre", "none") if cfg["route"] == "auto" else "none"
     if pre != "fit":
@@ -111,7 +114,7 @@ def one_run(cfg, path, fault_at=None, fault_prior_at=None, log=None):
             else:
                 s, h = a.sample_posterior(return_history=True, checkpoint_path=path, checkpoint_every=cfg["every"], **kw)
             out.update(status="done", samples=s, history=h)
-        except smcrun.Fault as e:
+        except smcrun.FAULTS as e:
             out.update(status="fault", exc=e)
         except Exception as e:   # noqa
             out.update(status="raised", exc=e)
